@@ -19,6 +19,7 @@ package ffi2abi
 import (
 	"context"
 	"encoding/json"
+	"net/url"
 	"strings"
 
 	"github.com/hyperledger/firefly-common/pkg/fftypes"
@@ -335,11 +336,13 @@ func convertFFIParamsToABIParameters(ctx context.Context, params fftypes.FFIPara
 		c := fftypes.NewFFISchemaCompiler()
 		v := &ParamValidator{}
 		c.RegisterExtension(v.GetExtensionName(), v.GetMetaSchema(), v)
-		err := c.AddResource(param.Name, strings.NewReader(param.Schema.String()))
+		// The schema is registered under a URL - escape the name, so any name is a valid one (a '#' is refused outright)
+		resourceName := url.PathEscape(param.Name)
+		err := c.AddResource(resourceName, strings.NewReader(param.Schema.String()))
 		if err != nil {
 			return nil, i18n.WrapError(ctx, err, signermsgs.MsgInvalidFFIDetailsSchema, param.Name)
 		}
-		_, err = c.Compile(param.Name)
+		_, err = c.Compile(resourceName)
 		if err != nil {
 			return nil, i18n.WrapError(ctx, err, signermsgs.MsgInvalidFFIDetailsSchema, param.Name)
 		}
